@@ -18,6 +18,9 @@ class Diagnostic:
         self.related_message = None
 
     def add_related(self, path: str, line: int, message: str):
+        # Objects of intrinsic modules have no source location to point at
+        if path is None:
+            return
         self.has_related = True
         self.related_path = path
         self.related_line = line
